@@ -25,8 +25,10 @@ func sc(v *big.Int) *scalar.Scalar {
 
 // checkAll runs every recoding of v against exact reconstruction + bounds.
 // Returns true when some recoding produced a negative digit.
-func checkAll(w *mc.W, v *big.Int) bool {
-	s := sc(v)
+func checkAll(w *mc.W, v *big.Int) bool { return checkOn(w, sc(v), v) }
+
+// checkOn runs every recoding of the scalar object s, whose value is v, against exact reconstruction + bounds.
+func checkOn(w *mc.W, s *scalar.Scalar, v *big.Int) bool {
 	cas := map[string]string{"scalar": v.Text(16)}
 	neg := false
 	// Bits
@@ -232,6 +234,7 @@ func run(c *mc.Ctx) {
 	})
 
 	// (4) documented panics for widths outside the documented set (complete small domain 0..16)
+	mutateThenRecode(c)
 	c.Par("widths", 17, func(w *mc.W, i int) {
 		wd := uint(i)
 		s := sc(big.NewInt(12345))
